@@ -1,35 +1,49 @@
 /-
 C20 model: the session timer (src/bgp/fsm/timers.rs, after fix F17) under a controlled clock.
 
-Logical state of a `Timer` plus its spawned interval task, observed at the points where the
-task has settled (the harness yields after every operation):
+Two layers.
 
-* `interval`        `Timer.interval` (ms)
-* `task`            the spawned `timer_inner` loop, if any, with the deadline of its
-                    `tokio::time::Interval` (`None` before the first `start` and after a stop)
-* `queue`           the capacity-1 tick channel `tick_send`/`tick_recv`
-* `everStarted`     `reset_send.is_some()` (set by the first `start`, never cleared)
-* `now`             the paused tokio clock (ms since the timer was created)
-* ghost fields      `lastStart`, `lastReset` (time of the last `start` / `reset` call),
-                    `stopped` (the last of {start, stop_and_reset} was a stop, or never started;
-                    equals `!Timer.started`)
+1. A SMALL-STEP model of the `Timer` struct together with the task `Timer::start` spawns:
 
-A pending reset message (`reset_send`, capacity 1) is consumed by the task at the settle right
-after `reset()`, so it never persists between operations and is not a state component here.
+   * `interval`        `Timer.interval` (ms)
+   * `task`            the spawned `timer_inner` loop: `dead` (never started / stopped / panicked at
+                       `tokio::time::interval(0)`), `waiting next` (suspended in the `select!` of
+                       `timer_inner`; `next` = the deadline of its `tokio::time::Interval`), or
+                       `sending v next` (suspended in `tick_send.send(v).await` because the tick channel
+                       is full; the Interval's next deadline is already `next = v + interval`)
+   * `queue`           the capacity-1 tick channel `tick_send`/`tick_recv`
+   * `resetPending`    the capacity-1 reset channel `reset_send`/`reset_recv` of the live task holds a message
+   * `everStarted`     `reset_send.is_some()` (set by the first `start`, never cleared)
+   * `now`             the paused tokio clock (ms since the timer was created)
+   * ghost fields      `lastStart`, `lastReset` (time of the last `start` / `reset` call),
+                       `stopped` (= `!Timer.started`)
 
-`drain := false` gives the code before fix F17: queued ticks survive stop/reset/start.
+   The primitive steps are the synchronous calls `callStart` / `callStop` / `callReset` (what the
+   method does before it returns; the task is NOT polled), `clock d` (the paused clock moves, nothing is
+   polled) and `settle` (the spawned task is polled until it suspends: `select! { biased; reset, tick }`,
+   `Interval::tick` with `MissedTickBehavior::Burst`, `tick_send.send(..).await`).
 
-Fix F17 also makes both `select!`s of the interval task `biased` (stop before tick, reset before
-tick). That does not show in this model: it only matters when stop/reset/start is called after
-the interval has fired but before its task has run, and then the repaired code ends in exactly
-the state the model reaches by `advance` followed by the call (no tick is sent, the queue is
-empty, the interval is re-armed from the time of the call); the unrepaired code picks one of
-two outcomes at random there. The correspondence run exercises that schedule (`Ar/Ax/As`).
+2. The OPERATIONS of a history are compositions of primitive steps, exactly as the harness executes
+   them (it yields after every operation so that the task settles):
+   `start` = callStart; settle   `advance d` = clock d; settle   `advThen d c` = clock d; call c; settle
+   (the Interval has fired but its task has not run when the call is made), `await d` =
+   `timeout(d, timer.tick())` + settle, `probe` = read `is_running()`, `!tick_recv.is_empty()` and
+   the number of live tasks, `burst2 c1 c2` / `burst3 c1 c2 c3` = the calls back to back (the task
+   `start` spawned has not been polled once when the next call is made), then settle.
 
-`step` answers `none` when the operation would break the property's precondition
-"each tick is awaited before the next one falls due" (then the task would block in
-`tick_send.send(..).await`, the Interval would burst, and `select!` would have to choose
-between a pending reset and a due tick at random – none of which is modelled).
+The model is TOTAL: it also says what happens when the property's precondition "each tick is awaited
+before the next one falls due" is broken (the sender blocks on the full channel, the Interval catches up
+in a burst, `reset()` drains the channel while a sender is blocked: the blocked tick is delivered after
+the reset).  `breaks s op` says whether `op` breaks the precondition; `step`/`run` are the total
+functions restricted to histories that keep it.
+
+`drain := false` gives the code before fix F17 (queued ticks survive stop/reset/start); it is only
+meaningful inside the precondition and for settled calls (the unrepaired `select!`s were not biased).
+
+Idealisations (also in tools/props/C20.json `assumptions`): the spawned task is first polled at the clock
+instant of `start()` and a reset message is consumed at the instant of `reset()` (no time passes between a
+call and the settle that follows it); `stop`/`start` end the old task at once (its outer `select!` is
+biased towards `stop_recv`, so whenever it is polled next it ends without sending).
 
 Core Lean only (the driver links this file).
 -/
@@ -37,19 +51,36 @@ import Rc.Base
 
 namespace Rc.Timer
 
+/-- state of the task spawned by `Timer::start` (`timer_inner` inside the stop `select!`) -/
+inductive Task where
+  | dead
+  | waiting (next : Nat)
+  | sending (v next : Nat)
+  deriving Repr, DecidableEq
+
+/-- the three synchronous methods -/
+inductive Call where
+  | start | reset | stop
+  deriving Repr, DecidableEq
+
 inductive Op where
   | start
   | reset
   | stop
-  | advance (d : Nat)     -- tokio::time::advance(d ms)
-  | await (d : Nat)       -- tokio::time::timeout(d ms, timer.tick())
+  | advance (d : Nat)              -- tokio::time::advance(d ms), then the task settles
+  | await (d : Nat)                -- tokio::time::timeout(d ms, timer.tick()), then the task settles
+  | advThen (d : Nat) (c : Call)   -- advance(d ms) and the call BEFORE the task has run, then settle
+  | probe                          -- is_running(), tick pending?, live tasks
+  | burst2 (c1 c2 : Call)          -- two calls back to back: nothing is polled in between, then settle
+  | burst3 (c1 c2 c3 : Call)       -- three calls back to back
   deriving Repr, DecidableEq
 
 structure State where
   interval : Nat
   now : Nat
-  task : Option Nat
+  task : Task
   queue : Option Nat
+  resetPending : Bool
   everStarted : Bool
   lastStart : Option Nat
   lastReset : Option Nat
@@ -57,79 +88,133 @@ structure State where
   deriving Repr, DecidableEq
 
 def init (interval : Nat) : State :=
-  { interval, now := 0, task := none, queue := none, everStarted := false,
+  { interval, now := 0, task := .dead, queue := none, resetPending := false, everStarted := false,
     lastStart := none, lastReset := none, stopped := true }
 
-/-- what an `await` saw -/
+/-- what an operation lets the caller see -/
 inductive Obs where
   | tick (value : Nat) (at_ : Nat)     -- `Ok(instant)`: the Instant carried, the clock when it was received
   | timeout (at_ : Nat)                -- `Err(Elapsed)`
+  | probe (running pending : Bool) (alive : Nat)
   deriving Repr, DecidableEq
 
-/-- mirrors `Timer::start`: drain (F17), new stop/reset channels (dropping the old stop sender
-ends a previous task), spawn `timer_inner`: `interval(i)` created now, its immediate first tick
-swallowed, next deadline `now + i`. -/
-def start (drain : Bool) (s : State) : State :=
+/-! ### primitive steps -/
+
+/-- mirrors `Timer::start` (timers.rs:101): `drain_ticks` (F17), `started = true`, new stop and reset
+channels (dropping the old stop sender ends the previous task: its `stop_recv` resolves and the biased
+outer `select!` takes that arm), `tokio::spawn` of `timer_inner`: `interval(i)` starts now, its immediate
+first tick is swallowed, next deadline `now + i`.  `interval(0)` panics inside the new task: it is gone. -/
+def callStart (drain : Bool) (s : State) : State :=
   { s with
     queue := if drain then none else s.queue,
-    task := some (s.now + s.interval),
+    task := if s.interval = 0 then .dead else .waiting (s.now + s.interval),
+    resetPending := false,
     everStarted := true,
     lastStart := some s.now,
     stopped := false }
 
-/-- mirrors `Timer::stop_and_reset`: the stop message ends the task; drain (F17). -/
-def stop (drain : Bool) (s : State) : State :=
+/-- mirrors `Timer::stop_and_reset` (timers.rs:147): the stop message ends the task (biased `select!`),
+`drain_ticks` (F17), `started = false`.  Without a `stop_send` (never started / already stopped) only a
+warning is logged; there is no task then. -/
+def callStop (drain : Bool) (s : State) : State :=
   { s with
-    task := none,
+    task := .dead,
     queue := if drain then none else s.queue,
+    resetPending := false,
     stopped := true }
 
-/-- mirrors `Timer::reset` + the `reset_recv` arm of `timer_inner` (`interval.reset()`: next
-deadline one period from now). Without a `reset_send` (never started) only a warning is logged. -/
-def reset (drain : Bool) (s : State) : State :=
+/-- mirrors `Timer::reset` (timers.rs:162): with a `reset_send` (ever started): `try_send(())` into the
+capacity-1 reset channel (`Full` when a message is already there, `Closed` when the task is gone: both
+ignored), `drain_ticks` (F17).  Never started: a warning. -/
+def callReset (drain : Bool) (s : State) : State :=
   if s.everStarted then
     { s with
-      task := s.task.map (fun _ => s.now + s.interval),
+      resetPending := (match s.task with | .dead => false | _ => true),
       queue := if drain then none else s.queue,
       lastReset := some s.now }
   else { s with lastReset := some s.now }
 
-/-- `tokio::time::advance(d)` followed by the settle: the `interval.tick()` arm of `timer_inner`
-fires if the deadline is reached and sends the deadline Instant into the queue.
-`none`: a tick falls due while the queue is full, or two fall due in one step. -/
-def advance (s : State) (d : Nat) : Option State :=
-  match s.task with
-  | none => some { s with now := s.now + d }
-  | some next =>
-    if s.now + d < next then some { s with now := s.now + d }
-    else if s.queue.isSome then none                       -- the task would block in send()
-    else if next + s.interval ≤ s.now + d then none        -- a second tick falls due un-awaited
-    else some { s with now := s.now + d, queue := some next, task := some (next + s.interval) }
+def call (drain : Bool) (s : State) : Call → State
+  | .start => callStart drain s
+  | .reset => callReset drain s
+  | .stop => callStop drain s
 
-/-- `timeout(d, timer.tick())`: a queued tick is received at once; otherwise the paused clock
-auto-advances to the earlier of the task's deadline and the timeout. When both coincide the
-`Timeout` future is polled before the interval task runs: `Elapsed`, and the tick is in the
-queue afterwards. -/
+/-- the paused clock moves; nothing is polled -/
+def clock (s : State) (d : Nat) : State := { s with now := s.now + d }
+
+/-- the loop of `timer_inner` (timers.rs:133) from its `select!` until it suspends:
+`biased; reset_recv.recv() => interval.reset()` (next deadline one period from now) wins over
+`interval.tick()`; a due tick is sent; `Interval` (Burst) is then due again one period after the
+deadline it returned, so a second overdue tick follows at once and finds the channel full. -/
+def pollLoop (s : State) (next : Nat) : State :=
+  if s.resetPending then { s with task := .waiting (s.now + s.interval), resetPending := false }
+  else if next ≤ s.now then
+    match s.queue with
+    | some _ => { s with task := .sending next (next + s.interval) }
+    | none =>
+      if next + s.interval ≤ s.now then
+        { s with queue := some next, task := .sending (next + s.interval) (next + s.interval + s.interval) }
+      else { s with queue := some next, task := .waiting (next + s.interval) }
+  else s
+
+/-- the spawned task runs until it suspends -/
+def settle (s : State) : State :=
+  match s.task with
+  | .dead => s
+  | .waiting next => pollLoop s next
+  | .sending v next =>
+    if s.queue.isSome then s                                  -- still no room
+    else pollLoop { s with queue := some v, task := .waiting next } next
+
+/-! ### operations -/
+
+/-- `timeout(d, timer.tick())` in a settled state, then settle: a queued tick is received at once
+(which frees the slot a blocked sender waits for); otherwise the paused clock auto-advances to the
+earlier of the task's deadline and the timeout.  When both coincide the `Timeout` future is polled
+before the interval task runs: `Elapsed`, and the tick is in the queue afterwards. -/
 def await (s : State) (d : Nat) : State × Obs :=
   match s.queue with
-  | some v => ({ s with queue := none }, .tick v s.now)
+  | some v => (settle { s with queue := none }, .tick v s.now)
   | none =>
     match s.task with
-    | some next =>
+    | .waiting next =>
       if next < s.now + d then
-        ({ s with now := next, task := some (next + s.interval) }, .tick next next)
+        ({ s with now := next, task := .waiting (next + s.interval) }, .tick next next)
       else if next = s.now + d then
-        ({ s with now := next, queue := some next, task := some (next + s.interval) }, .timeout next)
+        ({ s with now := next, queue := some next, task := .waiting (next + s.interval) }, .timeout next)
       else ({ s with now := s.now + d }, .timeout (s.now + d))
-    | none => ({ s with now := s.now + d }, .timeout (s.now + d))
+    | _ => ({ s with now := s.now + d }, .timeout (s.now + d))
 
-/-- one operation; the observation of an `await` -/
-def step (drain : Bool) (s : State) : Op → Option (State × Option Obs)
-  | .start => some (start drain s, none)
-  | .stop => some (stop drain s, none)
-  | .reset => some (reset drain s, none)
-  | .advance d => (advance s d).map (·, none)
-  | .await d => let r := await s d; some (r.1, some r.2)
+def alive (s : State) : Nat := match s.task with | .dead => 0 | _ => 1
+
+/-- one operation (total); the observation of an `await` / `probe` -/
+def stepT (drain : Bool) (s : State) : Op → State × Option Obs
+  | .start => (settle (callStart drain s), none)
+  | .stop => (settle (callStop drain s), none)
+  | .reset => (settle (callReset drain s), none)
+  | .advance d => (settle (clock s d), none)
+  | .advThen d c => (settle (call drain (clock s d) c), none)
+  | .await d => let r := await s d; (r.1, some r.2)
+  | .probe => (s, some (.probe (!s.stopped) s.queue.isSome (alive s)))
+  | .burst2 c1 c2 => (settle (call drain (call drain s c1) c2), none)
+  | .burst3 c1 c2 c3 => (settle (call drain (call drain (call drain s c1) c2) c3), none)
+
+/-- `op` breaks the property's precondition in `s`: the clock moves so far that a tick falls due while
+the previous one is still un-awaited (or two fall due in one step). -/
+def breaksAt (s : State) (d : Nat) : Bool :=
+  match s.task with
+  | .dead => false
+  | .waiting next => decide (next ≤ s.now + d) && (s.queue.isSome || decide (next + s.interval ≤ s.now + d))
+  | .sending _ _ => true
+
+def breaks (s : State) : Op → Bool
+  | .advance d => breaksAt s d
+  | .advThen d _ => breaksAt s d
+  | _ => false
+
+/-- one operation inside the precondition -/
+def step (drain : Bool) (s : State) (op : Op) : Option (State × Option Obs) :=
+  if breaks s op then none else some (stepT drain s op)
 
 /-- An observation together with the ghost variables at the moment it was made. -/
 structure Event where
@@ -140,6 +225,11 @@ structure Event where
   interval : Nat
   deriving Repr, DecidableEq
 
+def eventsOf (s : State) : Option Obs → List Event
+  | some ob => [{ obs := ob, lastStart := s.lastStart, lastReset := s.lastReset,
+                  stopped := s.stopped, interval := s.interval : Event }]
+  | none => []
+
 /-- A whole history. `none` = the history breaks the precondition somewhere. -/
 def run (drain : Bool) : State → List Op → Option (State × List Event)
   | s, [] => some (s, [])
@@ -149,21 +239,124 @@ def run (drain : Bool) : State → List Op → Option (State × List Event)
     | some (s', o) =>
       match run drain s' ops with
       | none => none
-      | some (s'', evs) =>
-        let here := match o with
-          | some ob => [{ obs := ob, lastStart := s.lastStart, lastReset := s.lastReset,
-                          stopped := s.stopped, interval := s.interval : Event }]
-          | none => []
-        some (s'', here ++ evs)
+      | some (s'', evs) => some (s'', eventsOf s o ++ evs)
 
-/-- driver: replies up to the first precondition violation -/
-def runPrefix (drain : Bool) : State → List Op → List Obs × Bool
-  | _, [] => ([], false)
+/-- A whole history, precondition or not. -/
+def runT (drain : Bool) : State → List Op → State × List Event
+  | s, [] => (s, [])
   | s, op :: ops =>
-    match step drain s op with
-    | none => ([], true)
-    | some (s', o) =>
-      let r := runPrefix drain s' ops
-      ((match o with | some ob => [ob] | none => []) ++ r.1, r.2)
+    let r := stepT drain s op
+    let q := runT drain r.1 ops
+    (q.1, eventsOf s r.2 ++ q.2)
+
+/-- driver: every observation of the history; `none` marks the first operation that breaks the
+precondition (`broken` = a marker was already emitted) -/
+def runMarked (drain : Bool) : State → Bool → List Op → List (Option Obs)
+  | _, _, [] => []
+  | s, broken, op :: ops =>
+    let b := !broken && breaks s op
+    let r := stepT drain s op
+    (if b then [none] else []) ++ (match r.2 with | some ob => [some ob] | none => []) ++
+      runMarked drain r.1 (broken || b) ops
+
+/-! ### the abstract specification
+
+A running timer is a stream of due times `due, due + i, due + 2i, ..`; ticks are handed out in
+order, never before they are due, none is lost or merged (tokio's `Interval` bursts) until a call
+discards them.  `stop` and `start` discard everything that is outstanding.  `reset` re-arms at
+`now + i` and discards what is outstanding EXCEPT the second-oldest outstanding tick when there are
+two or more (that one sits in a blocked `send`, which completes when `reset` drains the channel);
+inside the property's precondition there never are two. -/
+
+structure Spec where
+  i : Nat
+  now : Nat
+  due : Option Nat        -- running: the due time of the oldest tick not yet handed out or discarded
+  stale : Option Nat      -- a tick from before the last reset that is still to be handed out
+  lastStart : Option Nat
+  lastReset : Option Nat
+  stopped : Bool
+  deriving Repr, DecidableEq
+
+def Spec.init (i : Nat) : Spec :=
+  { i, now := 0, due := none, stale := none, lastStart := none, lastReset := none, stopped := true }
+
+/-- the two oldest outstanding ticks at the clock `a.now` -/
+def Spec.out2 (a : Spec) : Option Nat × Option Nat :=
+  match a.stale, a.due with
+  | some v, some t => (some v, if t ≤ a.now then some t else none)
+  | some v, none => (some v, none)
+  | none, some t =>
+    if t ≤ a.now then (some t, if t + a.i ≤ a.now then some (t + a.i) else none) else (none, none)
+  | none, none => (none, none)
+
+/-- a call made `d` ms after the interval task last ran (`d = 0`: the settled operations) -/
+def Spec.call (a : Spec) (d : Nat) : Call → Spec
+  | .start =>
+    { a with now := a.now + d, due := if a.i = 0 then none else some (a.now + d + a.i), stale := none,
+             lastStart := some (a.now + d), stopped := false }
+  | .stop => { a with now := a.now + d, due := none, stale := none, stopped := true }
+  | .reset =>
+    match a.due with
+    | some _ =>
+      { a with now := a.now + d, due := some (a.now + d + a.i), stale := a.out2.2, lastReset := some (a.now + d) }
+    | none => { a with now := a.now + d, lastReset := some (a.now + d) }
+
+/-- calls back to back: the interval task does not run in between, so a `reset` right after a `reset`
+changes nothing (the second message finds the reset channel full, there is nothing new to drain) -/
+def Spec.calls (a : Spec) : List Call → Spec
+  | [] => a
+  | .reset :: .reset :: rest => Spec.calls a (.reset :: rest)
+  | c :: rest => Spec.calls (a.call 0 c) rest
+
+def Spec.await (a : Spec) (d : Nat) : Spec × Obs :=
+  match a.stale with
+  | some v => ({ a with stale := none }, .tick v a.now)
+  | none =>
+    match a.due with
+    | some t =>
+      if t ≤ a.now then ({ a with due := some (t + a.i) }, .tick t a.now)
+      else if t < a.now + d then ({ a with now := t, due := some (t + a.i) }, .tick t t)
+      else ({ a with now := a.now + d }, .timeout (a.now + d))
+    | none => ({ a with now := a.now + d }, .timeout (a.now + d))
+
+def Spec.step (a : Spec) : Op → Spec × Option Obs
+  | .start => (a.call 0 .start, none)
+  | .stop => (a.call 0 .stop, none)
+  | .reset => (a.call 0 .reset, none)
+  | .advance d => ({ a with now := a.now + d }, none)
+  | .advThen d c => (a.call d c, none)
+  | .await d => let r := a.await d; (r.1, some r.2)
+  | .probe => (a, some (.probe (!a.stopped) a.out2.1.isSome (if a.due.isSome then 1 else 0)))
+  | .burst2 c1 c2 => (a.calls [c1, c2], none)
+  | .burst3 c1 c2 c3 => (a.calls [c1, c2, c3], none)
+
+def Spec.eventsOf (a : Spec) : Option Obs → List Event
+  | some ob => [{ obs := ob, lastStart := a.lastStart, lastReset := a.lastReset,
+                  stopped := a.stopped, interval := a.i : Event }]
+  | none => []
+
+/-- the specification of a whole history: what every await / probe observes -/
+def Spec.run : Spec → List Op → Spec × List Event
+  | a, [] => (a, [])
+  | a, op :: ops =>
+    let r := a.step op
+    let q := Spec.run r.1 ops
+    (q.1, a.eventsOf r.2 ++ q.2)
+
+/-- `spec i ops`: the observations of the history `ops` on a timer with interval `i` -/
+def spec (i : Nat) (ops : List Op) : List Obs := ((Spec.init i).run ops).2.map (·.obs)
+
+/-- the precondition on the specification: moving the clock by `d` lets a tick fall due while an
+older one is outstanding -/
+def Spec.breaksAt (a : Spec) (d : Nat) : Bool :=
+  match a.due with
+  | none => false
+  | some t => if a.stale.isSome then decide (t ≤ a.now + d) else decide (t + a.i ≤ a.now + d)
+
+def Spec.breaks (a : Spec) : Op → Bool
+  | .advance d => a.breaksAt d
+  | .advThen d _ => a.breaksAt d
+  | _ => false
 
 end Rc.Timer
